@@ -44,6 +44,52 @@ CHECKS = {
          'actually advances in later cycles (timing).',
          'clang 14 AST/CFG; std::thread runs the function passed to it; timing undecided',
          'DESIGN.md section 5, C16'),
+ 'C01': ('validate-after-read / writer-revalidation typestates over the CFG; inferred lock/dirty-bit summaries (E-LOCK)',
+         'Decides the obligations of the optimistic concurrency protocol on every CFG path: a slot value reaches a '
+         'success exit of get / a layer descent of get, put, remove only after a later, valid stable-version check '
+         '(R-VAR); the value exit is also validated against a concurrent remove (R-RV); get_lv_of returns only under '
+         'two equal stable versions with one permutation snapshot (R-LOOKUP); writers re-validate (and re-look-up) '
+         'under the lock before mutating (R-WUL); structural stores happen under a dirty bit (R-DBM). Necessary '
+         'conditions of linearizability, not a proof of it.',
+         'clang 14 AST/CFG; hardware atomicity of the version word; sufficiency of the comparisons (ABA) undecided',
+         'DESIGN.md section 5, C01'),
+ 'C04': ('range-reader typestate (loads / version checks / pushes / roll-backs) over the CFG with lambda inlining',
+         'Decides for scan_border<V> and the layer scan, on every CFG path: only data covered by a later '
+         'scan_check_retry established OK is pushed or followed (R-VAR), one permutation snapshot and validated exits '
+         '(R-SNAP), roll-back before every retry (R-RBK), remove-visible validation of pushed values (R-RV). Not a '
+         'proof of per-key consistency over all interleavings.',
+         'clang 14 AST/CFG; scan_check_retry semantics decided under C06 R-EQ',
+         'DESIGN.md section 5, C04'),
+ 'C06': ('event-ordering typestate at node boundaries; ordering typestate of border_split; return-condition analysis '
+         'of scan_check_retry',
+         'Decides the order of the four boundary loads of scan_border (neighbour pointer and neighbour version before '
+         'the final, OK-established check; exactly those values handed over) (R-ORD), that every visit is validated '
+         '(R-CHK), that a split sibling is locked and dirty and linked before it is reachable (R-SPL), the return '
+         'conditions of scan_check_retry (R-EQ) and dirty-before-insert (R-BUMP). The interleaving argument itself '
+         'is not decided.',
+         'clang 14 AST/CFG; acquire/release annotations trusted',
+         'DESIGN.md section 5, C06'),
+ 'C08': ('lock-protects-field over inferred lock summaries (E-LOCK); link/parent pairing typestate',
+         'Decides that every store to shared node state happens under the lock that protects it or on an unpublished '
+         'node, with helper requirements checked at call sites (R-MUL); raw version stores only on unpublished nodes '
+         '(R-RAWV); every child link store is paired with the parent-pointer update on the same path (R-LINK). '
+         'Sortedness, separators and cross-API agreement are value-dependent and undecided.',
+         'clang 14 AST/CFG; structural tokens denote distinct nodes; mutator table from the @pre comments',
+         'DESIGN.md section 5, C08'),
+ 'C09': ('symbolic lock-set analysis with inferred per-function lock effects (E-LOCK), acquisition-order and '
+         'self-wait rules, reader call-graph rule',
+         'Decides lock balance on every exit of every writer function (R-BAL), the conditional contract of lock_parent '
+         '(R-LP), the documented acquisition order at every blocking acquire (R-ORDL), no spin on an own lock '
+         '(R-NSW) and lock-free readers (R-RDR). Termination of the optimistic retry loops is not decided.',
+         'clang 14 AST/CFG; three named unreachable fall-off tails are exempt from balance',
+         'DESIGN.md section 5, C09'),
+ 'C12': ('dirty-set = reported-set typestate over put / insert_lv / border_split; critical-section rule; receiver rule',
+         'Decides that on every path the border nodes whose version word is changed are exactly the reported '
+         'modified/created nodes (R-REP), that an overwrite shares its critical section with no version-changing '
+         'call (R-UPD), that a layer-root replacement never dirties the linking border (R-PQ) and the legacy '
+         'overload forwarding (R-LEG).',
+         'clang 14 AST/CFG; a version word changes only through the enumerated calls',
+         'DESIGN.md section 5, C12'),
 }
 
 NOT_APPLICABLE = {
